@@ -8,7 +8,7 @@ from sim.props.base import Prop, draw_solve
 class C11(Prop):
     id = "C11"
     level = "exploration"
-    RUNS = {"quick": 500, "thorough": 10000}
+    RUNS = {"quick": 1000, "thorough": 10000}
     BUDGET = {"quick": 85, "thorough": 900}
     ORACLES = ("O-ATTR", "O-CERT", "O-PRIMAL", "O-ATTR-PRIMAL", "O-HEUR", "O-DELIVERY", "C11")
     RULE = ("one seeded session (template model incl. >= 129 rows, LMIs declared in an order different from the order "
